@@ -7,6 +7,7 @@ import (
 	"fmt"
 	"io"
 	"os"
+	"sort"
 
 	"github.com/hujm2023/go-sms-protocol/codec"
 
@@ -146,6 +147,9 @@ func genFrames(r *fw.Rng, maxN int, small bool) [][]byte {
 			l = r.Pick(4, 4, 5, 8, 12, 16, 17)
 		case r.Chance(1, 12):
 			l = r.Pick(65535, 65536, 40000)
+		case r.Chance(1, 8):
+			// around the sizes buffers are made of: powers of two and a prefix more or less
+			l = r.Pick(256, 512, 1024, 2048, 4096, 4096, 4096, 8192, 16384, 32768) + r.Range(-5, 5)
 		case r.Chance(1, 4):
 			l = r.Range(200, 3000)
 		default:
@@ -441,6 +445,31 @@ func init() {
 							runNonBlocking(c, name, cd, stream, drip, "drip")
 						}
 					})
+				},
+			},
+			{
+				// hundreds of small frames arriving in one piece (a burst of heartbeats and receipts): the extractor is called
+				// until it says "incomplete", and that must be after the last complete frame, not before
+				Name: "manyframes", N: q(200, 20000),
+				Run: func(c *fw.Case) {
+					n := c.R.Pick(255, 256, 257, 258, 300, 511, 512, 513, 700, 1024, 1025, 2049)
+					frames := make([][]byte, n)
+					for i := range frames {
+						l := c.R.Pick(4, 12, 16, 16, 17, c.R.Range(4, 40))
+						f := c.R.Bytes(l)
+						binary.BigEndian.PutUint32(f, uint32(l))
+						frames[i] = f
+					}
+					stream, _ := concat(frames)
+					each(func(name string, cd codec.Codec) {
+						var cuts []int
+						for k := c.R.Intn(3); k > 0; k-- {
+							cuts = append(cuts, 1+c.R.Intn(len(stream)-1))
+						}
+						sort.Ints(cuts)
+						runNonBlocking(c, name, cd, stream, cuts, "many-frames-one-arrival")
+					})
+					c.Cover(fmt.Sprintf("manyframes/%d", n))
 				},
 			},
 			{
